@@ -2,6 +2,7 @@ _Q = 'xdoctest.utils.util_stream:CaptureStdout.'
 _P = 'xdoctest.utils.util_import:PythonPathContext.'
 PROPERTY = {
     'id': 'C12',
+ 'extra': ['bounded.c12_restore.run'],
     'contract_modules': ['doctest_example', 'util_stream', 'checker', 'doctest_part', 'runner', 'util_import'],
     'functions': ['xdoctest.doctest_example:DocTest.run', _Q + '__init__', 'xdoctest.utils.util_stream:TeeStringIO.__init__', _Q + 'start', _Q + 'stop', _Q + 'log_part', _Q + '__enter__', _Q + '__exit__',
                   _P + '__init__', _P + '__enter__', _P + '__exit__',
@@ -17,6 +18,7 @@ PROPERTY = {
               'PythonPathContext: __enter__ inserts at the normalised index; __exit__ removes exactly that entry '
               '(in place, or the first occurrence when it moved; RuntimeError iff it is gone); sys.path is a Seq String',
               '_custom_import_modpath: sys.path == old(sys.path) on success and on every failure of the import'],
+        'B': ['the real DocTest.run on doctests that print, replace sys.stdout, alter the warning filters or await, ended by every outcome kind (pass, mismatch, exception, expected exception, early exit, all skipped, import failure, SystemExit, KeyboardInterrupt) at the first / last position x on_error in {return, raise}: sys.stdout / sys.stderr identical, sys.path and warning filters equal, no running loop afterwards; import_module_from_path on an importable and a failing module (bounded/c12_restore.py)'],
         'T': ['io.StringIO buffer/position model', 'importlib (import_module_from_name) leaves sys.path alone',
               'warnings.catch_warnings restores the filters (stdlib)', 'asyncio.run leaves no loop running (stdlib)'],
         'N/A': ['no event loop is left running: property of asyncio.run'],
